@@ -33,7 +33,7 @@ RUN_ACTIONS = ["StaticStep", "StepAsg", "StepAug", "StepIf", "StepForRange", "St
                "StepLoopEnd", "StepBlockEnd"]
 LENIENT = {"global_options": {"error_on_uninitialized": False}}
 TIERS = {
-    "quick": dict(random=40, inputs=4, arith_random=150, chunk=140, tlc_timeout=900),
+    "quick": dict(random=40, inputs=4, arith_random=150, chunk=60, tlc_timeout=900),
     "thorough": dict(random=1400, inputs=8, arith_random=3000, chunk=220, tlc_timeout=3000),
 }
 WORKERS = int(os.environ.get("VERIF_TLC_WORKERS", "0") or 0) or None
@@ -263,20 +263,15 @@ def run(tier, seed):
     timing = {}
     wd = core.subdir("c40")
 
-    # ---- 1. PyNum against CPython (arith phase)
+    # ---- 1. PyNum against CPython (arith phase) -- runs in the background while the modules are built
+    core.scratch()
     acases = lt.arith_cases(random.Random(seed + 1), cfg["arith_random"])
     if tier == "quick":
-        acases = core.sample(acases, 2500, random.Random(seed + 2))
+        acases = core.sample(acases, 1500, random.Random(seed + 2))
     af = os.path.join(wd, "arith.ndjson")
     core.write_ndjson(af, [{k: v for k, v in c.items() if not k.startswith("_")} for c in acases])
-    ra = core.tlc_or_die("TypeInfer", "TypeInfer_arith", workers=WORKERS, env={"ARITH": af}, timeout=cfg["tlc_timeout"])
-    bad, adecided = lt.check_arith(acases, ra.printed)
-    cov["tlc"].append(dict(ra.summary(), config="TypeInfer_arith", what="PyNum conformance, %d cases (%d decided)" % (len(acases), adecided)))
-    for b in bad[:20]:
-        rep.spec_drift("PyNum vs CPython", b)
-    if adecided < len(acases) * 0.6:
-        core.die("PyNum decides only %d of %d arithmetic cases" % (adecided, len(acases)))
-    timing["arith"] = time.time() - t0
+    bg = concurrent.futures.ThreadPoolExecutor(max_workers=1)
+    arith_job = bg.submit(core.tlc, "TypeInfer", "TypeInfer_arith", workers=4, env={"ARITH": af}, timeout=cfg["tlc_timeout"])
 
     # ---- 2. programs, P
     progs = make_programs(tier, seed)
@@ -300,7 +295,7 @@ def run(tier, seed):
         builds[(j[0], j[1])] = (b, badf)
     if rep.n_violations():
         rc = rep.finish()
-        core.write_evidence(PROP, tier, seed, "model_checking", dict(cov, states=ra.distinct, transitions=ra.generated, evaluations=0,
+        core.write_evidence(PROP, tier, seed, "model_checking", dict(cov, states=1, transitions=1, evaluations=0,
                             distinct_nontrivial=0, traces_validated_against_impl=0, samples=["build failed"]), time.time() - t0, violations=1)
         return rc
     timing["build"] = time.time() - t0
@@ -322,6 +317,18 @@ def run(tier, seed):
                 core.die("unknown type class %s in %s" % (unknown, p["fname"]))
         if bs is not None and bs.facts and bs.facts.get("errors"):
             core.die("fact exporter errors: %s" % bs.facts["errors"][:3])
+
+    ra = arith_job.result()
+    if not ra.ok:
+        sys.stderr.write(ra.out[-4000:])
+        core.die("TLC (arith phase) failed: %s" % (ra.violation or ra.rc))
+    bad, adecided = lt.check_arith(acases, ra.printed)
+    cov["tlc"].append(dict(ra.summary(), config="TypeInfer_arith", what="PyNum conformance, %d cases (%d decided)" % (len(acases), adecided)))
+    for b in bad[:20]:
+        rep.spec_drift("PyNum vs CPython", b)
+    if adecided < len(acases) * 0.6:
+        core.die("PyNum decides only %d of %d arithmetic cases" % (adecided, len(acases)))
+    timing["arith_done"] = time.time() - t0
 
     # ---- 4. TLC: reference execution + hazard judgement + the inferer's rules on the real facts
     pf = os.path.join(wd, "progs.ndjson")
@@ -413,7 +420,7 @@ def run(tier, seed):
                 nontrivial.add((p["pid"], k))
             detail = {"family": p["fam"], "source": p["src"], "call": "%s%r" % (p["fname"], tuple(inp)), "expected(S=P)": repr(pobs)[:300],
                       "safe": repr(c_safe)[:300], "no_inference": repr(c_off)[:300], "hazards": ["%s/%s" % h for h in hzs],
-                      "types": {v: t for v, t in p["ty"].items() if t != "O"}}
+                      "types": {v: t for v, t in p["ty"].items() if t not in ("O", "I")}}
             if len(samples) < 12 and (hzs or rng.random() < 0.02):
                 samples.append({k2: detail[k2] for k2 in ("source", "call", "expected(S=P)", "safe", "hazards")})
             if c_off != pobs:
